@@ -157,7 +157,7 @@ CHECKS = {
               "(interfile) image and projection-data headers written by the library, and in half of the projection-data cases a vendor "
               "flavour (Siemens sinogram sub-header of the mMR with a small data file, Interfile 3.3 SPECT header) -> truncated at every byte, "
               "one flipped bit at every byte, every line lost / duplicated, list-valued lines with an entry lost / gained, every vectorised "
-              "index damaged, every integer value replaced by 0 / -1 / 1, data file shorter / longer; (interfile_lm) the Siemens list-mode header of a small PETLINK 32-bit file through "
+              "index damaged, every integer value n replaced by 0 / -1 / 1 / 2n / n+1, data file shorter / longer; (interfile_lm) the Siemens list-mode header of a small PETLINK 32-bit file through "
               "CListModeDataECAT8_32bit, every record fetched and mapped to a bin after an accepted header; (multi) the Multi header of a "
               "dynamic data set: an accepted header has a name for every data set it announces.  "
               "Non-trivial: every case; distinct = event-log hash."),
